@@ -15,7 +15,7 @@ import (
 func init() {
 	register(&Prop{
 		ID:          "C12",
-		Explanation: "Decides the shape of the refresh protocol (not its schedules): the provider refresh function value is called only in refreshSession, which is called only from refreshSessionIfNeeded; that call site is reached only on paths where ObtainLock returned nil, then SessionStore.Load returned a non-nil session without error, the request's session object was overwritten from it, and a needsRefresh evaluated after the overwrite was true; on every path on which the lock was obtained the deferred function that releases it has been registered, and that function calls ReleaseLock on every path with a non-nil session; once the first needsRefresh is true the function returns nil only because the post-reload needsRefresh was false, or returns validateSession's verdict evaluated after the refresh attempt; validateSession returns nil only if the session is not expired and the provider validator accepted it; getValidatedSession returns a nil session with every error and the loader calls store.Clear for every error other than ErrNoCookie; Manager.Save mints a new ticket only when the request's ticket could not be decoded and otherwise saves under the request's ticket; the redis lock maps redislock's sentinels to the session-lock sentinels the middleware's retry loop tests. Added during the build: Manager.Clear expires the cookie on every path (R8, shared with C11.R2); every provider redeemRefreshToken stores access token, issue time, expiry and — when the response carries one — the refresh token on every success path (R9). Round 3: Age() is Clock.Now() (truncated by at most one second) minus *CreatedAt, unrounded, and needsRefresh is Age() > period (R10); the token-validation helper answers true only for status 200 (R11). Round 4: the cookie store's Save expires every presented session cookie it did not overwrite, so a refreshed session supersedes what the browser holds (R12, shared with C10.R4); every Provider.ValidateSession answers true only as, or after, a true verdict of validateToken or of the ValidateSession it embeds, or after an error-free ID-token verification (R13). needsRefresh may be folded into its caller: the staleness test is then recognised as the comparison Age() > refreshPeriod itself. Round 5: the stored-session loader's refresh and validation callbacks are the provider's own method values and the loader keeps them as given (R14).",
+		Explanation: "Decides the shape of the refresh protocol (not its schedules): the provider refresh function value is called only in refreshSession, which is called only from refreshSessionIfNeeded; that call site is reached only on paths where ObtainLock returned nil, then SessionStore.Load returned a non-nil session without error, the request's session object was overwritten from it, and a needsRefresh evaluated after the overwrite was true; on every path on which the lock was obtained the deferred function that releases it has been registered, and that function calls ReleaseLock on every path with a non-nil session; once the first needsRefresh is true the function returns nil only because the post-reload needsRefresh was false, or returns validateSession's verdict evaluated after the refresh attempt; validateSession returns nil only if the session is not expired and the provider validator accepted it; getValidatedSession returns a nil session with every error and the loader calls store.Clear for every error other than ErrNoCookie; Manager.Save mints a new ticket only when the request's ticket could not be decoded and otherwise saves under the request's ticket; the redis lock maps redislock's sentinels to the session-lock sentinels the middleware's retry loop tests. Added during the build: Manager.Clear expires the cookie on every path (R8, shared with C11.R2); every provider redeemRefreshToken stores access token, issue time, expiry and — when the response carries one — the refresh token on every success path (R9). Round 3: Age() is Clock.Now() (truncated by at most one second) minus *CreatedAt, unrounded, and needsRefresh is Age() > period (R10); the token-validation helper answers true only for status 200 (R11). Round 4: the cookie store's Save expires every presented session cookie it did not overwrite, so a refreshed session supersedes what the browser holds (R12, shared with C10.R4); every Provider.ValidateSession answers true only as, or after, a true verdict of validateToken or of the ValidateSession it embeds, or after an error-free ID-token verification (R13). needsRefresh may be folded into its caller: the staleness test is then recognised as the comparison Age() > refreshPeriod itself. Round 5: the stored-session loader's refresh and validation callbacks are the provider's own method values and the loader keeps them as given (R14). Round 6: a delegating RefreshSession never answers (false, nil) after its delegate answered true (R15).",
 		NotDecided:  "'exactly one refresh' under interleavings, lock expiry versus identity-provider latency, token rotation at the provider: schedules and histories are not explored.",
 		Run:         runC12,
 	})
@@ -159,6 +159,7 @@ func runC12(c *Ctx) {
 	r.Rule("R12-saved-session-supersedes", "a re-saved (refreshed) cookie session replaces what the browser holds: Save expires every presented session cookie it did not overwrite (shared with C10.R4)", 3)
 	r.Rule("R13-validator-asks-provider", "every Provider.ValidateSession answers true only after validateToken or the embedded ValidateSession answered true, or the ID-token verifier returned no error", 10)
 	r.Rule("R14-loader-wired-to-provider", "the stored-session loader's refresh and validation callbacks are the provider's own RefreshSession and ValidateSession method values, and the loader keeps them as given", 4)
+	r.Rule("R15-refreshed-verdict-kept", "a provider RefreshSession that delegates never answers (false, no error) after its delegate answered true: the loader persists the new tokens only on true", 3)
 	r.Rule("R7-lock-sentinels", "redis lock maps redislock sentinels to the session-lock sentinels the retry loop tests", 6)
 
 	rule := "R1-single-refresh-site"
@@ -281,6 +282,7 @@ func runC12(c *Ctx) {
 	runC10R4(c, "R12-saved-session-supersedes")
 	runValidatorAsksProvider(c, "R13-validator-asks-provider")
 	runC12R14(c, "R14-loader-wired-to-provider")
+	runC12R15(c, "R15-refreshed-verdict-kept")
 
 	runTicketReuseRule(c, "R6-ticket-reuse")
 
@@ -948,5 +950,64 @@ func runC12R14(c *Ctx, rule string) {
 		if n == 0 {
 			c.R.Unknown(rule, "kept|"+pair.to.Name(), "-", "the loader's "+pair.to.Name()+" is never set")
 		}
+	}
+}
+
+// runC12R15: the converse of C09.R10. refreshSession saves the session (new tokens, new issue time) only when the
+// provider answers refreshed == true. A wrapper around the OIDC refresh that loses the delegate's true — a named
+// result shadowed by := — serves the refreshing request from memory and leaves the old tokens and the spent refresh
+// token in the store: every later request refreshes again. For each RefreshSession implementation that calls a
+// delegate: no return path has the delegate's verdict known true, the own verdict known false and an error that is
+// not definitely non-nil.
+func runC12R15(c *Ctx, rule string) {
+	m := c.Method(rule, "providers.Provider.RefreshSession")
+	if m == nil {
+		return
+	}
+	isDeleg := func(p *walk.Path, cl walk.Call) bool {
+		if sc := cl.C.StaticCallee(); sc != nil {
+			return sc.Name() == "RefreshSession" && c.P.InModule(sc)
+		}
+		return isDelegate(p, cl, nil, nil)
+	}
+	n := 0
+	for _, impl := range c.P.Implementations(m) {
+		if !c.P.InModule(impl) || len(impl.Blocks) == 0 || impl.Synthetic != "" {
+			continue
+		}
+		impl := impl
+		delegates := false
+		bad := false
+		key := "verdict-kept|" + fnKey(impl)
+		c.WalkShallow(rule, impl, func(p *walk.Path) {
+			rv, ok := p.ReturnDV(0)
+			if !ok || bad {
+				return
+			}
+			for _, cl := range p.Calls() {
+				if !isDeleg(p, cl) {
+					continue
+				}
+				delegates = true
+				if b, k := p.ResultTruth(cl.DV(), 0, p.End()); !(k && b) {
+					continue
+				}
+				own, known := p.Truth(rv, p.End())
+				ev, _ := p.ReturnDV(1)
+				if known && !own && !definitelyNonNil(p, ev, p.End()) {
+					bad = true
+					c.bad(rule, key, p.Exit, prog.Name(impl)+" can answer (false, nil) although the refresh it delegates to answered true: the loader then neither saves the new tokens nor resets the session's age, and every later request repeats the refresh with the spent refresh token", p, p.End())
+				}
+			}
+		})
+		if delegates {
+			n++
+			if !bad {
+				c.R.OK(rule, key, c.P.Pos(impl.Pos()), "the delegate's true verdict is never turned into (false, nil)")
+			}
+		}
+	}
+	if n == 0 {
+		c.R.Unknown(rule, "verdict-kept|none", "-", "no delegating RefreshSession implementation found")
 	}
 }
